@@ -540,14 +540,8 @@ package common
 //@ func (epc *EpochsContext) hydrateSyncCommittee(view) (r, err)
 //@   trusted
 //@   ensures err == nil ==> r != nil && sc_src(r) == view
-// the from-scratch path: LoadSyncCommittees caches the state's two committees; NewEpochsContext does so for every state that has
+// the from-scratch path (LoadSyncCommittees, inlined, caches the state's two committees): NewEpochsContext does so for every state that has
 // them - handed over directly or held by the repository's wrapper (the same lookup as RotateEpochs: the two paths must agree)
-//@ func (epc *EpochsContext) LoadSyncCommittees(state) err
-//@   property C08
-//@   panics off
-//@   requires epc != nil && state != nil
-//@   assigns epc.CurrentSyncCommittee, epc.NextSyncCommittee
-//@   ensures loaded: err == nil ==> epc.CurrentSyncCommittee != nil && sc_src(epc.CurrentSyncCommittee) == st_cursync(state) && epc.NextSyncCommittee != nil && sc_src(epc.NextSyncCommittee) == st_nextsync(state)
 //@ func NewEpochsContext(spec, state) (epc, err)
 //@   property C08
 //@   panics off
